@@ -106,7 +106,7 @@ func RunC17Mirror(ctx *core.Ctx) {
 	name = strings.TrimPrefix(name, "ok ")
 	ctx.Hist("mirror", name)
 	ctx.SetRule(c17Rule)
-	ncases := ctx.Scale(6, 60)
+	ncases := ctx.Scale(6, 24)
 	type pending struct {
 		req    string
 		real   string
